@@ -316,7 +316,7 @@ impl Sub for Chain {
         "chain"
     }
     fn rule(&self) -> &'static str {
-        "count matrix (M 0..30, cells 0..1000, both alphabets) x pseudocounts (scalar, per-symbol, or built for a scalar and then overwritten in place through AsMut) x background (uniform / from counts / dyadic, zero entries, non-zero wildcard, one symbol counted 1..3 times among billions) x second background x base {2,10,e,3.7,...}; to_freq, to_weight, to_scoring (one-step and two-step), to_scoring_with_base, rescale, min_score/max_score compared with the f64 definitions (tolerance 1e-5 relative); rows with zero total are excluded; non-trivial = M >= 2 and (non-uniform background or per-symbol pseudocounts or base != 2)"
+        "count matrix (M 0..30, cells 0..1000 and up to u32::MAX, both alphabets) x pseudocounts (scalar, per-symbol, or built for a scalar and then overwritten in place through AsMut) x background (uniform / from counts / dyadic, zero entries, non-zero wildcard, one symbol counted 1..3 times among billions) x second background x base {2,10,e,3.7,...}; to_freq, to_weight, to_scoring (one-step and two-step), to_scoring_with_base, rescale, min_score/max_score compared with the f64 definitions (tolerance 1e-5 relative); rows with zero total are excluded; non-trivial = M >= 2 and (non-uniform background or per-symbol pseudocounts or base != 2)"
     }
     fn cases(&self, tier: Tier) -> u64 {
         tier.pick(60_000, 1_500_000)
@@ -326,7 +326,7 @@ impl Sub for Chain {
             .prop_flat_map(|abc| {
                 let k = abc.k();
                 (0usize..=30).prop_flat_map(move |m| {
-                    let cell = prop_oneof![3 => Just(0u32), 6 => 0u32..=40, 1 => 0u32..=1000];
+                    let cell = prop_oneof![6 => Just(0u32), 12 => 0u32..=40, 2 => 0u32..=1000, 1 => prop_oneof![Just(u32::MAX), Just(1u32 << 24), (1u32 << 24)..=u32::MAX]];
                     let pseudo = prop_oneof![
                         3 => prop_oneof![Just(0.0f32), Just(0.1f32), Just(0.25), Just(1.0), 0.0f32..3.0].prop_map(|x| Pseudo::Scalar(Fl(x))),
                         2 => proptest::collection::vec(prop_oneof![Just(0.0f32), 0.0f32..2.0], k).prop_map(|v| Pseudo::PerSymbol(v.into_iter().map(Fl).collect())),
